@@ -213,6 +213,14 @@ Proof.
   intros Ht. unfold dir_files. apply map_ext_in. intros e He. apply join2_empty; auto.
 Qed.
 
+Theorem dir_files_naming_both (t : tree) (prefix : str) :
+  (forall e, In e t -> good_path (fst e)) ->
+  (good_path prefix -> dir_files t prefix = map (fun e => prefix ++ 47 :: fst e) t) /\
+  dir_files t [] = map fst t.
+Proof.
+  intros Ht. split; [intros Hp; now apply dir_files_naming | now apply dir_files_naming_empty].
+Qed.
+
 Section DirProofs.
 Variable sha : str -> str.
 
